@@ -134,9 +134,6 @@ def o3_no_unsaved_loss(steps, cfg, history, include_failed=False):
             b = read_through(pre, p)
             if b is None:
                 continue
-            base = p.rsplit('/', 1)[-1]
-            if base.startswith('.') and base.endswith('.xvc-tmp'):
-                continue            # xvc's own temporary copy left by an earlier failed command: not the user's data
             if read_through(post, p) == b:
                 continue
             if c['op'] == 'move' and read_through(post, c['dst']) == b:
@@ -604,7 +601,7 @@ def run_fault_stream(chk, r, oracles, n):
             if k in seen: continue
             seen.add(k)
             chk.oracle_failure(msg, {'cfg': cfg, 'history': [show_cmd(c) + (f"   [ulimit -f {c['fsize_limit']}, SIGXFSZ ignored]" if c.get('fsize_limit') else '') +
-                                                             (f"   [directory at the temporary copy name of {c['tmp_blocked']}]" if c.get('tmp_blocked') else '') for c in h],
+                                                             (f"   [a regular file at .xvc/tmp: the copies of {c['tmp_blocked']} out of the cache fail]" if c.get('tmp_blocked') else '') for c in h],
                                      'io_fault_history': name}, None, signature=dict(sig, stream='io-fault'))
 
 
